@@ -104,6 +104,10 @@ def extract(crate_dir, crate_name, config, feature_args):
             with open(pkl, "rb") as fh:
                 facts = pickle.load(fh)
             facts["_meta"]["cached"] = True
+            try:
+                os.utime(fdir)      # the collector below evicts the least recently used
+            except OSError:
+                pass
             return facts
         t0 = time.time()
         os.makedirs(fdir, exist_ok=True)
